@@ -78,6 +78,7 @@ SQ2PI = math.sqrt(2.0 * math.pi)
 
 KEY_REBIN = "C13/model-rebin-does-not-recompute"
 KEY_NEXUS = "C13/nexus-model-node-stale-after-data-change"
+KEY_QUAD = "C13/numerical-misses-peak-much-narrower-than-bin"
 
 
 def floors(tier):
@@ -419,6 +420,33 @@ def single_panel_regime(spec, p, edges):
     return True
 
 
+def classify_quad(spec, p, edges, got, exp, atol):
+    """Known mechanism: 'numerical' hands each whole bin to scipy.integrate.quad without break points; when a normal
+    component is much narrower than the bin (> 20 sigma) none of the 21 Gauss-Kronrod nodes of the first panel sees the
+    peak, the error estimate (from the smooth rest) is already below tolerance and the peak's area is silently lost.
+    Signature: every failing bin contains such a peak, the content is off by at most the area of those peaks, and the
+    same QUADPACK call *with* the peak positions as break points reproduces the analytic integral."""
+    try:
+        from scipy import integrate
+
+        bad = np.flatnonzero(~(np.abs(got - exp) <= atol))
+        normals = [(w, args) for w, kind, args in components(spec, p) if kind == "normal"]
+        if not len(bad) or not normals:
+            return None
+        for i in bad:
+            a, b = float(edges[i]), float(edges[i + 1])
+            hit = [(w, mu, sg) for w, (mu, sg) in normals if a - 5 * sg < mu < b + 5 * sg and (b - a) > 20 * sg]
+            if not hit or not abs(got[i] - exp[i]) <= sum(abs(w) for w, _, _ in hit) * (1 + 1e-6) + atol[i]:
+                return None
+            pts = sorted(set(x for _, mu, sg in hit for x in (mu - 4 * sg, mu - sg, mu, mu + sg, mu + 4 * sg) if a < x < b))
+            v, _ = integrate.quad(lambda x: float(ref_density(spec, p, x)), a, b, points=pts or None, limit=200)
+            if not abs(v - exp[i]) <= atol[i]:
+                return None
+        return KEY_QUAD
+    except Exception:
+        return None
+
+
 def rule_reference(spec, p, edges, rule):
     """the textbook rule (Simpson 1-4-1 /6, trapezoid 1-1 /2, midpoint) on the harness' own density"""
     a, b = edges[:-1], edges[1:]
@@ -483,6 +511,8 @@ def check_bins(ctx, st, got, mult, where, obs_main=None, key=None):
             # outside the regime in which one 21-point Gauss-Kronrod panel resolves the density to rounding: only quad's
             # own documented accuracy (epsabs = epsrel = 1.49e-8) can be demanded
             atol = atol + 1.49e-8 * np.maximum(1.0, np.abs(ref))
+        if wide and key is None and am > 0:
+            key = lambda: classify_quad(spec, p, edges, got / mult, ref, atol)  # noqa: E731
         ok &= _cmp(ctx, obs_main or ("data/numerical-wide-bins" if wide else "data/numerical"), got, mult * ref, am * atol, detail, key)
     elif fam.startswith("poly"):
         deg = int(fam[4:])
